@@ -123,7 +123,7 @@ HARNESS_FLAGS = {
     "net_driver_tsan": ["-std=c++17", "-O1", "-g", "-fsanitize=thread", "-D" + GUARD, "-DASIO_STANDALONE",
                         "-DHTTP_THREAD_SAFE", "-pthread"],
     "map_mt_driver": ["-std=c++17", "-O1", "-g", "-D" + GUARD, "-pthread"],
-    "map_mt_driver_tsan": ["-std=c++17", "-O1", "-g", "-fsanitize=thread", "-D" + GUARD, "-pthread"],
+    "map_mt_driver_tsan": ["-std=c++17", "-O1", "-g", "-fsanitize=thread", "-DNET_TSAN", "-D" + GUARD, "-pthread"],
 }
 HARNESS_SRC = {"net_driver_tls": "net_driver", "net_driver_pool": "net_driver", "net_driver_tsan": "net_driver",
                "map_mt_driver_tsan": "map_mt_driver"}
